@@ -15,6 +15,9 @@ where the specification says MustReject, an error where it says MustAccept.  Whi
 import os, json, random
 from vlib import common
 
+SPECS = ["CompatMC", "CompatTrace"]
+PKGS = ["./cmd/compat"]
+
 REPS = {"quick": 20, "thorough": 100}
 RANDOM_PAIRS = {"quick": 3000, "thorough": 24000}
 TRACE_BATCH = 4000
